@@ -12,6 +12,7 @@
    alpm: within each class of equal pkgrel presence (the property's sole exclusion).
    maven: NOT transitive on parsed values (C01_maven_refuted, finding F-maven-order-cycle);
    the laws hold on the two classes whose union is the complement of the finding's class. *)
+From Verif Require GenTie.  (* ties of model constants to the generated tables *)
 From Verif.Base Require Import Bytes Ord.
 From Verif.Eco Require Import VLayer.
 From Verif.Eco.Alpine Require OrdMore.
